@@ -1915,6 +1915,9 @@ class InCaptionPhase(Phase):
     def processEOF(self):
         self.parser.phases["inBody"].processEOF()
 
+    def processSpaceCharacters(self, token):
+        return self.parser.phases["inBody"].processSpaceCharacters(token)
+
     def processCharacters(self, token):
         return self.parser.phases["inBody"].processCharacters(token)
 
@@ -2248,6 +2251,9 @@ class InCellPhase(Phase):
     # the rest
     def processEOF(self):
         self.parser.phases["inBody"].processEOF()
+
+    def processSpaceCharacters(self, token):
+        return self.parser.phases["inBody"].processSpaceCharacters(token)
 
     def processCharacters(self, token):
         return self.parser.phases["inBody"].processCharacters(token)
